@@ -22,8 +22,11 @@ Legs of one run
                   to thousands of filler objects (near ones known to the model, far ones anonymous), asks a battery of
                   NEARBY queries (query cells, k, radii at / around the occurring distances, filters, paging, outputs,
                   RESP and JSON) on the dataset reached and records the replies.
+                  The cover is repeated on a collection that holds nothing else (empty index, single-leaf tree).
   3. code->model  random worlds (random positions incl. poles / 180th meridian), random histories that also move the
-                  fillers, random queries; recorded.
+                  fillers, random queries; a dense world without far objects (more than 100 candidates: the default
+                  limit); worlds around both poles with annuli of hundreds of objects ~10 cm apart in distance (seen
+                  from a pole every node bound is tight: the order is decided by the exactness of the bounds).
   Every recorded trace is judged by TLC with spec/NearbyTrace.tla (Nearby!Defects on the dataset at that moment).
   4. self-test    corrupted copies of recorded replies must be rejected by TLC (else the binding is vacuous: Infra).
 A VIOLATION is a reply of the real server that TLC rejects.
@@ -42,6 +45,7 @@ PAR = max(4, min(common.NCPU, 12))       # parallel real servers
 JUDGES = max(2, min(common.NCPU // 2, 6))   # parallel TLC processes judging traces
 os.environ.setdefault("JAVA_TOOL_OPTIONS", "-Xss16m")   # Defects recurses over the items of a reply
 TOL = dict(OrdEps=5, TolAbs=1000, TolDiv=200)
+JUDGE_RUNS = set()
 
 # ---------------------------------------------------------------------------------------------- worlds
 # grid worlds: (lat0, lon0) south-west cell, steps in degrees
@@ -157,6 +161,7 @@ def judge(ctx, name, w, trace_path, timeout=1500):
     tp = os.path.join(d, "trace.ndjson")
     if os.path.abspath(trace_path) != tp:
         shutil.copyfile(trace_path, tp)
+    JUDGE_RUNS.add(name)
     r = ctx.tlc(name, [MODS[0], MODS[3]], mc, cfg, workers=1, timeout=timeout, files=[tp])
     os.remove(tp)
     if not r["ok"]:
@@ -538,6 +543,13 @@ def run(ctx):
         if st["negative_radius_answered"]:
             ctx.notes.append("observation (not part of C13): %d NEARBY queries with a negative radius were answered instead of refused"
                              % st["negative_radius_answered"])
+        # one line for the many TLC launches that judged pieces of traces
+        jud = [r for r in ctx.tlc_runs if r["name"] in JUDGE_RUNS]
+        if jud:
+            ctx.tlc_runs = [r for r in ctx.tlc_runs if r["name"] not in JUDGE_RUNS] + [{
+                "name": "NearbyTrace: %d launches judging pieces of the recorded traces" % len(jud), "mode": "bfs",
+                "generated": sum(r["generated"] for r in jud), "distinct": sum(r["distinct"] for r in jud),
+                "depth": max(r["depth"] for r in jud), "wall_s": round(sum(r["wall_s"] for r in jud), 1), "violated": None}]
         common.write_evidence(ctx, "model_checking", {
             "states": acc.states,
             "transitions": acc.trans,
